@@ -236,6 +236,9 @@ func checkC13(c *Ctx) (int, error) {
 	c.ev.Level = "model_checking"
 	c.ev.Assumptions = []string{"earlier histories enumerated over {stream class} x {stop point: before the first Read, mid-stream with undelivered output, at EOF, after corrupt input, after a source error}; next inputs: valid, truncated, and malformed streams whose back-references reach before their own start; payloads are seeded samples",
 		"the result after Reset is compared with a fresh Reader's on the same input and both are judged by ReaderContract"}
+	if err := c.readerModels(); err != nil {
+		return 0, err
+	}
 	rng := rand.New(rand.NewSource(c.Seed))
 	n := 12
 	if c.Tier == "thorough" {
